@@ -11,6 +11,7 @@ import Proofs.ContainerEnc
 import Proofs.Canonical
 import Proofs.Placed
 import Props.C02
+import Proofs.KernelSort
 
 namespace Asn1.C04
 open Asn1.Container
@@ -146,6 +147,15 @@ theorem setOf_perm_invariant_partial (typed : Bool) (l₁ l₂ : List (Option In
 theorem setOf_sort_perm_framed (hdr : Bytes) (xs ys : List Bytes) (p : xs.Perm ys)
     (hf : ∀ c ∈ xs, Framed hdr c) : sortSetOfChunks xs = sortSetOfChunks ys :=
   sortSetOfChunks_perm p (framed_padInj hdr xs hf)
+
+/-- **at the source level: the order in which SET OF members were added does not reach the wire.**  `SetOfEncoder.encodeValue`
+    of cer/encoder.py (CER and DER), translated from the working tree on this run (`GenK.setOfSort`), writes the same
+    octets for every permutation of element encodings that are definite-length framed under one identifier (DER elements
+    of one type) -/
+theorem source_setof_order_insensitive (hdr : Bytes) (xs ys : List Bytes) (p : xs.Perm ys)
+    (hf : ∀ c ∈ xs, Framed hdr c) :
+    GenK.setOfSort (xs.map Kernels.bytesInts) = GenK.setOfSort (ys.map Kernels.bytesInts) := by
+  rw [Kernels.setOfSort_kernel, Kernels.setOfSort_kernel, setOf_sort_perm_framed hdr xs ys p hf]
 
 /-- **a DEFAULT component set explicitly to its default or left out**: same abstract content,
     hence (by `equal_abs_equal_bytes`) the same DER and CER bytes -/
